@@ -680,6 +680,7 @@ impl<'a> Gen<'a> {
         fu.correction = sub + if rng.chance(1, 3) { rng.log_u128(30) as i64 } else { 0 };
         let sync_op = format!("P{k} EVT {} {}", hex(&sync.bytes()), t_recv);
         let fu_op = format!("P{k} GEN {}", hex(&fu.bytes()));
+        self.w.ports[k - 1].last_sync = Some((mi, m.sync_seq, t_send));
         self.out.count("gen.exchange");
         // orderings: sync,fu | fu,sync | sync,sync,fu | sync only | fu only | sync,fu,fu
         let order: &[u8] = *rng.pick(&[&[0u8, 1][..], &[0, 1], &[0, 1], &[1, 0], &[0, 0, 1], &[0], &[1], &[0, 1, 1], &[1, 0, 1]]);
